@@ -527,6 +527,27 @@ def option_stage(ctx, prog, rule):
                     if C not in reach(g, [0]):
                         guards.append(fl)
         ok = ok and guards == [flag]
+        if ok:
+            # ... and on nothing else: once the flag is set, no other test can skip the stage (for a whole buffer:
+            # the stage's loop is always entered; inside a fused per-point loop: the call is always made)
+            C = blocks[0]
+            lps = natural_loops(f)
+            hc = None
+            for h_, body_ in lps.items():
+                if C in body_ and (hc is None or len(body_) < len(lps[hc])):
+                    hc = h_
+            rets = set(f.return_blocks())
+            for sw, tr, fa in flag_sw.get(flag, []):
+                if hc is not None and sw in lps[hc]:
+                    target, sinks = {C}, rets | {hc}
+                elif hc is not None:
+                    target, sinks = {hc}, rets
+                else:
+                    target, sinks = {C}, rets
+                skip = find_path(f.cfg(), [tr], sinks, target) if tr not in target else None
+                if skip is not None:
+                    ok = False
+                    guards = guards + ["<another condition: path %s avoids the stage>" % "->".join("bb%d" % b for b in skip[:8])]
         ctx.ob(rule, "stage-guard/%s" % name, ok, "%s is control-dependent on the flags %s (must be exactly [%s])" % (name, guards, flag), where=f.file_line(blocks[0]) if blocks else None)
     # per-point order: both coordinate conversions precede the pose.  Sites in different loops are
     # ordered by reachability; sites inside one (fused) loop by paths that avoid the loop header.
